@@ -40,6 +40,7 @@ impl HeaderMap {
     pub fn clone(&self) -> (r: HeaderMap) ensures r == *self { unimplemented!() }
 }
 impl Default for HeaderMap { #[verifier::external_body] fn default() -> (r: HeaderMap) ensures r.m@ == Map::<Seq<char>, Seq<char>>::empty() { unimplemented!() } }
+impl HeaderMap { #[verifier::external_body] pub fn new() -> (r: HeaderMap) ensures r.m@ == Map::<Seq<char>, Seq<char>>::empty() { unimplemented!() } }
 #[derive(Clone, Copy, Debug)]
 pub enum Version { V1 }
 // local metadata (http::Extensions): a type-keyed map; `peer` is its PeerId entry -- the identity the network attached to the message after
